@@ -114,7 +114,7 @@ def run(chk: core.Check, tier: str, seed: int) -> None:
     pr = [r for r in recs if r["op"] == "probe" and r.get("calls")][7]
     chk.sample({"query": core.dec_text(pr["q"]), "signature": pr["reg"][0], "first_calls": pr["calls"][:3]})
     common.judge(chk, recs, "c10", what="Trace: built-in and probe function records vs Eval.tla",
-                 only=lambda c: c.startswith("C13 find") or not c.startswith(("C03", "C04", "C05", "C13")))
+                 only=lambda c: c.startswith(("C13 find", "C03")) or not c.startswith(("C03", "C04", "C05", "C13")))
     chk.rule = (
         f"{n_builtin} built-in records (length/count/value x {len(KINDS)} child kinds under an array and an object) + "
         f"{n_probe} probe records: all {len(sigs)} signatures over {{V,L,N}}^n->type (n<=2) x {per_sig} seeded argument "
